@@ -472,6 +472,31 @@ inductive GuardE where
 	str("sendTransferChanExpr", transferChan, "the channel the precompile transfers on (NewMsgTransfer's source channel)")
 	str("sendResponseVar", respVar, "variable holding the response of ibcTransferKeeper.Transfer")
 
+	// DeleteIBCTransferRelation reports whether the record existed: `if !store.Has(key) { return false }` before the
+	// delete, `return true` after it
+	reports := false
+	if del != nil {
+		seenHas, seenDelete := false, false
+		for _, st := range del.Body.List {
+			switch x := st.(type) {
+			case *ast.IfStmt:
+				if strings.Contains(c.src(x.Cond), ".Has(") && strings.HasPrefix(c.src(x.Cond), "!") && len(x.Body.List) == 1 && c.src(x.Body.List[0]) == "return false" && !seenDelete {
+					seenHas = true
+				}
+			case *ast.ExprStmt:
+				if strings.Contains(c.src(x), ".Delete(") {
+					seenDelete = true
+				}
+			case *ast.ReturnStmt:
+				if c.src(x) == "return true" && seenHas && seenDelete {
+					reports = true
+				}
+			}
+		}
+	}
+	fmt.Fprintf(sb, "/-- DeleteIBCTransferRelation returns false when there is no record (`if !store.Has(key) { return false }`), true after deleting one -/\ndef deleteReportsMissing : Bool := %v\n", reports)
+	c.facts["C19.deleteReportsMissing"] = reports
+
 	// IBCCoinToBaseCoin: calls in order
 	var toBase []string
 	if fd := c.findFunc("x/crosschain/keeper", "Keeper", "IBCCoinToBaseCoin"); fd != nil {
